@@ -286,6 +286,56 @@ def P3_chunking(k, c1, c2, asbytes):
     return 3
 
 
+E_ = b'\x1b'
+# byte input that is NOT well-formed UTF-8: truncated multi-byte prefixes followed by ASCII / an escape sequence /
+# another character, stray continuation bytes, invalid bytes (the decoder's error policy is 'replace')
+MALFORMED = [b'ab\xe2\x8cok', b'\xe2A\x8c\x9b', b'\xc3' + E_ + b'[1;2Hq\xa9', b'\xff\xfeab', b'a\x80b', b'\xf0\x9f\x98x' + E_ + b'[2Jz',
+             b'\xe2\x82' + E_ + b'[1;1H\xac', b'q\xc3\xc3\xa9w', b'\xe2\x82', b'\xed\xa0\x80k']
+
+
+@obligation(params=dict(k=Int(0, len(MALFORMED) - 1), c1=Int(0, 12), c2=Int(0, 12), unit=Bool()),
+            tags={2: 'cut right after a truncated prefix', 3: 'cut elsewhere', 4: 'one byte per process() call'},
+            timeout=300, split=('k',),
+            note='P3b: malformed byte input (truncated multi-byte prefixes followed by ASCII or an escape sequence, stray '
+                 'continuation bytes, invalid bytes) fed to a utf-8 terminal in up to three pieces, or byte by byte '
+                 'through process(): never raises, same screen / cursor / parser state / pending decoder bytes as one '
+                 'write() (added after a seeded ASCII shortcut around the incremental decoder was missed: the corpus '
+                 'had only well-formed text)')
+def P3b_malformed_bytes(k, c1, c2, unit):
+    k = pick(k, 0, len(MALFORMED) - 1)
+    data = MALFORMED[k]
+    n = len(data)
+    if not (c1 <= c2 <= n):
+        return SKIP
+    c1 = pick(c1, 0, n)
+    c2 = pick(c2, c1, n)
+    with patched(A, open=_null_open):
+        one = new_term('utf-8')
+        one.write(data)
+        many = new_term('utf-8')
+        if unit:
+            if c1 or c2:
+                return SKIP
+            for i in range(n):
+                many.process(data[i:i + 1])
+        else:
+            many.write(data[:c1])
+            many.write(data[c1:c2])
+            many.write(data[c2:])
+    if not si_ok(one) or not si_ok(many):
+        return 0
+    if _snapshot(one) != _snapshot(many):
+        return 0
+    if one.decoder.getstate() != many.decoder.getstate():
+        return 0                          # bytes still pending inside the decoder differ
+    if unit:
+        return 4
+    for c in (c1, c2):
+        if 0 < c < n and data[c - 1] >= 0xC0 and data[c] < 0x80:
+            return 2
+    return 3
+
+
 @obligation(params=dict(k=Int(0, len(CORPUS) - 1), asbytes=Bool()),
             tags={2: 'text, one character per call', 3: 'bytes, one byte per call', 4: 'bytes with a multi-byte character'},
             timeout=300, split=('asbytes',),
@@ -325,6 +375,9 @@ def dry_runs():
         yield 'P4_process_units', dict(k=k, asbytes=True)
     for k in range(6):
         yield 'P1_write_ch', dict(k=k, **base)
+    for k in range(len(MALFORMED)):
+        yield 'P3b_malformed_bytes', dict(k=k, c1=1, c2=2, unit=False)
+        yield 'P3b_malformed_bytes', dict(k=k, c1=0, c2=0, unit=True)
 
 
 PROBES = ['screen']      # representation probes (harness/probes.py) this harness depends on
@@ -336,7 +389,7 @@ MANIFEST_ENTRY = {
                   'numeric parameters, from an arbitrary valid screen state - never raises, keeps the rows x cols grid, '
                   'cursor and scroll region valid, and leaves no parameter residue whenever the parser is back in '
                   'INIT; inputs of any length follow by induction over steps. (P3) chunking independence on a corpus '
-                  'of every known / truncated / unknown sequence and multi-byte text with symbolic cut positions.',
+                  'of every known / truncated / unknown sequence, multi-byte text and malformed byte input with symbolic cut positions.',
     'level_note': 'Character dimension enumerated by class (the code only tests equality with named characters); 3x4 '
                   'screen; P3 is an enumeration through the solver over a fixed corpus, weaker than P1/P2.',
 }
